@@ -159,6 +159,10 @@ class StdioClient:
             logger.debug("stdout_reader started")
 
             async for chunk in self.process.stdout:
+                # (a chunk need not contain a line at all - a flood without line
+                # breaks must not starve the rest of the program either, see below)
+                await anyio.lowlevel.checkpoint()
+
                 # Handle both bytes and string chunks
                 if isinstance(chunk, bytes):
                     # Split on newlines *before* decoding: a read may end inside a
@@ -189,7 +193,7 @@ class StdioClient:
                     # aimed at a task that is about to be resumed anyway is put off
                     # turn after turn. Yield regularly, so that leaving the context
                     # stays bounded whatever the child writes
-                    if n_line % 64 == 0:
+                    if n_line % 64 == 63:
                         await anyio.lowlevel.checkpoint()
 
                     line = line.strip()
